@@ -145,3 +145,127 @@ Theorem C11_history_example :
   reads (cfg_at ex_O 9 9 evs 2) 2 5 = true.
 Proof. exact hist_commit_honest_example. Qed.
 Print Assumptions C11_history_example.
+
+Require Import Verif.Check.C11_check Verif.Proofs.JudgeSoundRolesHistP Verif.Proofs.JudgeSoundC11P.
+(* ---- the executable properties of Check/C11_check.v are the property (judge soundness) ---- *)
+
+(* commit sink: under the hypotheses of C11_commit the model's own answer (observation, verdict of every oracle) passes;
+   outside [values_ok] the executable property is vacuous by construction *)
+Theorem C11_judge_cc_model_passes : forall g fl st phase retry i,
+  cfg_ok g i = true -> (retry = true -> phase = 1%N) ->
+  cc_ok (g, fl, st, phase, retry, i) (cc_model (g, fl, st, phase, retry, i)) = true.
+Proof. exact cc_model_passes. Qed.
+Print Assumptions C11_judge_cc_model_passes.
+
+(* commit sink: an implementation answer o = (result of Observation, verdicts) that passes satisfies the conclusion of
+   C11_commit: an observation is produced and each of the |c_oracles| validators accepts it *)
+Theorem C11_judge_cc_sound : forall g fl st phase retry i o,
+  cc_ok (g, fl, st, phase, retry, i) o = true -> values_ok st = true ->
+  exists ob, fst o = Ok ob /\ length (snd o) = length (c_oracles g) /\ forall v, In v (snd o) -> v = true.
+Proof. exact cc_sound. Qed.
+Print Assumptions C11_judge_cc_sound.
+
+(* execute sink: the model passes for the three execute phases when the reader state fails exactly the case's failure list;
+   rests on a strengthening of C11_exec: the model fails only for a failing call of the oracle's OWN readers or an unpriced
+   destination *)
+Theorem C11_judge_ce_model_passes : forall g fl st phase i,
+  cfg_ok g i = true -> (phase <= 2)%N -> (forall k c, rs_fail st k c = fail_of fl k c) ->
+  ce_ok (g, fl, st, phase, i) (ce_model (g, fl, st, phase, i)) = true.
+Proof. exact ce_model_passes. Qed.
+Print Assumptions C11_judge_ce_model_passes.
+
+Theorem C11_judge_ce_model_error_cause : forall g i st phase, (phase <= 2)%N ->
+  (exists ob, observe_exec g i st phase = Ok ob) \/
+  (observe_exec g i st phase = Err /\ (own_failing g i st \/ dest_priced g st = false)).
+Proof. exact observe_exec_cases. Qed.
+Print Assumptions C11_judge_ce_model_error_cause.
+
+(* execute sink: a passing answer satisfies the conclusions of C11_exec_no_panic (no panic, no hang), C11_exec_valid
+   (whatever is produced under a stable home configuration is accepted by every validator) and, towards C11_exec, an
+   error only when one of the oracle's own reads is scripted to fail or the destination publishes no prices *)
+Theorem C11_judge_ce_sound : forall g fl st phase i o,
+  ce_ok (g, fl, st, phase, i) o = true -> values_ok st = true ->
+  fst o <> Panic /\ fst o <> Spin /\
+  (forall ob, fst o = Ok ob -> pending_known g st = true ->
+              length (snd o) = length (c_oracles g) /\ forall v, In v (snd o) -> v = true) /\
+  (fst o = Err -> own_failure g i fl = true \/ dest_priced g st = false).
+Proof. exact ce_sound. Qed.
+Print Assumptions C11_judge_ce_sound.
+
+(* the conclusion of C11_exec when nothing is scripted to fail *)
+Theorem C11_judge_ce_sound_produced : forall g st phase i o,
+  ce_ok (g, [], st, phase, i) o = true -> values_ok st = true -> pending_known g st = true ->
+  dest_priced g st = true ->
+  exists ob, fst o = Ok ob /\ length (snd o) = length (c_oracles g) /\ forall v, In v (snd o) -> v = true.
+Proof. exact ce_sound_produced. Qed.
+Print Assumptions C11_judge_ce_sound_produced.
+
+(* history sinks: the same on the configuration of the most recent successful poll; no [cfg_ok] premise for (a), the
+   executable property is vacuous outside it *)
+Theorem C11_judge_cch_model_passes : forall h fl st phase retry i,
+  Forall short_poll (hctx_polls h) -> (retry = true -> phase = 1%N) ->
+  cch_ok (h, (fl, st, phase, retry, i)) (cch_model (h, (fl, st, phase, retry, i))) = true.
+Proof. exact cch_model_passes. Qed.
+Print Assumptions C11_judge_cch_model_passes.
+
+Theorem C11_judge_cch_sound : forall h fl st phase retry i o,
+  cch_ok (h, (fl, st, phase, retry, i)) o = true ->
+  cfg_ok (hctx_spec h) i = true -> values_ok st = true ->
+  exists ob, fst o = Ok ob /\ length (snd o) = length (c_oracles (hctx_spec h)) /\ forall v, In v (snd o) -> v = true.
+Proof. exact cch_sound. Qed.
+Print Assumptions C11_judge_cch_sound.
+
+Theorem C11_judge_ceh_model_passes : forall h fl st phase i,
+  Forall short_poll (hctx_polls h) -> (phase <= 2)%N -> (forall k c, rs_fail st k c = fail_of fl k c) ->
+  ceh_ok (h, (fl, st, phase, i)) (ceh_model (h, (fl, st, phase, i))) = true.
+Proof. exact ceh_model_passes. Qed.
+Print Assumptions C11_judge_ceh_model_passes.
+
+Theorem C11_judge_ceh_sound : forall h fl st phase i o,
+  ceh_ok (h, (fl, st, phase, i)) o = true ->
+  cfg_ok (hctx_spec h) i = true -> values_ok st = true ->
+  fst o <> Panic /\ fst o <> Spin /\
+  (forall ob, fst o = Ok ob -> pending_known (hctx_spec h) st = true ->
+              length (snd o) = length (c_oracles (hctx_spec h)) /\ forall v, In v (snd o) -> v = true) /\
+  (fst o = Err -> own_failure (hctx_spec h) i fl = true \/ dest_priced (hctx_spec h) st = false).
+Proof. exact ceh_sound. Qed.
+Print Assumptions C11_judge_ceh_sound.
+
+(* what the history judges model is the system of C11_history_round / C11_history_commit: the observation is the answer
+   of the observation round behind the scripted poller events, each verdict the answer of a validation round behind it *)
+Theorem C11_judge_cch_model_is_history : forall os d f polls fl st phase retry i,
+  nth_error (hrun os d f (hist_hevs polls ++ [HObsC i st phase retry])) (length (hist_hevs polls)) =
+  Some (Some (OCommit (fst (cch_model ((os, d, f, polls), (fl, st, phase, retry, i)))))).
+Proof. exact cch_model_is_history. Qed.
+Print Assumptions C11_judge_cch_model_is_history.
+
+Theorem C11_judge_cch_model_verdicts_history : forall os d f polls fl st phase retry i ob vs,
+  cch_model ((os, d, f, polls), (fl, st, phase, retry, i)) = (Ok ob, vs) ->
+  forall v, In v vs ->
+  nth_error (hrun os d f (hist_hevs polls ++ [HObsC i st phase retry; HValC retry i ob])) (S (length (hist_hevs polls))) =
+  Some (Some (OVerdict v)).
+Proof. exact cch_model_verdicts_history. Qed.
+Print Assumptions C11_judge_cch_model_verdicts_history.
+
+Theorem C11_judge_ceh_model_is_history : forall os d f polls fl st phase i,
+  nth_error (hrun os d f (hist_hevs polls ++ [HObsE i st phase])) (length (hist_hevs polls)) =
+  Some (Some (OExec (fst (ceh_model ((os, d, f, polls), (fl, st, phase, i)))))).
+Proof. exact ceh_model_is_history. Qed.
+Print Assumptions C11_judge_ceh_model_is_history.
+
+(* API sinks (judge shared with C12, Check/RolesHist_check.v) *)
+Theorem C11_judge_api_model_passes : forall x,
+  Forall short_poll (hctx_polls (fst x)) -> api_ok x (api_cmodel x) = true.
+Proof. exact api_model_passes. Qed.
+Print Assumptions C11_judge_api_model_passes.
+
+(* an answer that passes is the Roles accessor of C11_history_role_map on the most recent successful poll *)
+Theorem C11_judge_api_sound : forall x a, api_ok x a = true -> a = api_spec (hctx_spec (fst x)) (snd x).
+Proof. exact api_sound. Qed.
+Print Assumptions C11_judge_api_sound.
+
+(* what the observing side asks (SupportsDestChain) is answered from the same configuration *)
+Theorem C11_judge_api_sound_supports_dest : forall h o b, api_ok (h, QSupDest o) (AOptB b) = true ->
+  b = supports_dest (hctx_spec h) o.
+Proof. exact api_sound_supports_dest. Qed.
+Print Assumptions C11_judge_api_sound_supports_dest.
